@@ -32,7 +32,7 @@ func vsBody(k int) (string, string) {
 // VerifStmtShapes: for (8 clause shapes), for-in, if/elif/else chains, multi-assignment, calls
 // with positional and named arguments, list and map literals, index and attribute chains.
 func VerifStmtShapes() {
-	form := verifnd.Choice(8)
+	form := verifnd.Choice(9)
 	var src, want string
 	switch form {
 	case 0: // for init; cond; loop { body }
@@ -154,6 +154,25 @@ func VerifStmtShapes() {
 			want += ";[" + vsCanon(ix[(k+rot)%3]) + "]"
 		}
 		want += ")"
+	case 7: // redundant parentheses add exactly one paren node each
+		depth := verifnd.Int(1, 3)
+		inner := []string{"a", "a + b", "f(x)", "-1"}[verifnd.Choice(4)]
+		txt, c := inner, vsCanon(inner)
+		for k := 0; k < depth; k++ {
+			txt = "(" + txt + ")"
+			c = "P(" + c + ")"
+		}
+		switch verifnd.Choice(4) {
+		case 0:
+			src, want = txt, c
+		case 1:
+			src, want = txt+" * c", "("+c+" * #c)"
+			want = "(" + c + " * c)"
+		case 2:
+			src, want = "-"+txt, "(- "+c+")"
+		default:
+			src, want = "g("+txt+", (b))", "call(g;"+c+";P(b))"
+		}
 	default: // unary operators against a tighter binary operator
 		op := []string{"-", "+", "!"}[verifnd.Choice(3)]
 		bin := []string{"*", "/", "%", "+", "==", "&&"}[verifnd.Choice(6)]
